@@ -150,7 +150,24 @@ func decorate(s, marker string) string {
 	return strings.Join(ls, "\n")
 }
 
-var variantNames = []string{"as-is", "upper", "lower", "reflow", "decorate //", "decorate #", "decorate  * ", "decorate ;;", "decorate --"}
+var variantNames = []string{"as-is", "upper", "lower", "reflow", "decorate //", "decorate #", "decorate  * ", "decorate ;;", "decorate --", "single-line", "wrap-60", "wrap-100"}
+
+func wrapAt(s string, width int) string {
+	var sb strings.Builder
+	col := 0
+	for _, w := range strings.Fields(s) {
+		if col > 0 && col+1+len(w) > width {
+			sb.WriteString("\n")
+			col = 0
+		} else if col > 0 {
+			sb.WriteString(" ")
+			col++
+		}
+		sb.WriteString(w)
+		col += len(w)
+	}
+	return sb.String() + "\n"
+}
 
 func variant(s string, k int) string {
 	switch variantNames[((k%len(variantNames))+len(variantNames))%len(variantNames)] {
@@ -170,6 +187,12 @@ func variant(s string, k int) string {
 		return decorate(s, ";; ")
 	case "decorate --":
 		return decorate(s, "-- ")
+	case "single-line":
+		return strings.Join(strings.Fields(s), " ")
+	case "wrap-60":
+		return wrapAt(s, 60)
+	case "wrap-100":
+		return wrapAt(s, 100)
 	}
 	return s
 }
